@@ -15,7 +15,7 @@ RULE = ("cases = (initial tree of depth 1-3 with explicit defaults / empty sub-f
 
 def gen(seed, tier):
     rng = random.Random(seed)
-    n_hist = 4000 if tier == "quick" else 30000
+    n_hist = 16000 if tier == "quick" else 30000
     for i in range(n_hist):
         d = rng.choice([1, 2, 2, 3])
         dflt = rng.choice([0, 0, 7])
